@@ -60,7 +60,7 @@ Explained(e, M) ==
                                     /\ SameMat(e.rre, Sub(MatMul(e.a, e.c), MatMul(e.b, e.d)))
                                     /\ SameMat(e.rim, Add(MatMul(e.a, e.d), MatMul(e.b, e.c)))
                                ELSE RejectedSize(e)
-    \* float-only norms: the harness logs the error of norm_p / norm_frob in units of 4*r*c*eps
+    \* float-only norms: the harness logs the error of norm_p / norm_frob in units of 16*(r*c+1)*eps
     [] e.op = "norm_units" -> ~e.panic /\ e.units <= 1
     [] OTHER -> FALSE
 
